@@ -183,6 +183,11 @@ func (g *gpass) verifyClosure(w *wrapper, jc *jobClosure) {
 		return
 	}
 	cc := &closureCtx{w: w, jc: jc, flags: map[string]bool{}}
+	// C20 compares what the base-mode and the modifier-mode task closure do with
+	// a nil panic value (a module with a go directive < 1.21); every other role
+	// is verified under A-panicnil
+	g.x.NilPanics = jc.role == "flow-task" || jc.role == "modflow-task"
+	defer func() { g.x.NilPanics = false }()
 	// locate the user call
 	for _, b := range jc.fn.Blocks {
 		for _, in := range b.Instrs {
